@@ -374,6 +374,28 @@ pub fn apply(sim: &mut Sim, a: &Act) -> Applied {
     }
 }
 
+/// Evidence only: an abstract signature of the server's state (multiset of per-connection
+/// (epoll-side state, in-flight class, pending output, parser state, carried bytes), plus the number
+/// of outstanding requests and of clients waiting on the listener), from the read-only probe.
+pub fn state_signature(sim: &Sim) -> u64 {
+    let mut conns: Vec<u64> = sim
+        .server
+        .verif_probe()
+        .iter()
+        .map(|c| {
+            let pending_out = (c.connection.response_queue > 0 || c.connection.response_buffer.is_some()) as u64;
+            (c.state as u64) | ((c.in_flight.min(2) as u64) << 2) | (pending_out << 4) | ((c.connection.state as u64) << 5) | (((c.connection.read_cursor > 0) as u64) << 8) | (((c.connection.body_bytes_to_be_read > 0) as u64) << 9)
+        })
+        .collect();
+    conns.sort_unstable();
+    let mut f = Fp::new();
+    for c in conns {
+        f = f.u(c);
+    }
+    let waiting = sim.gens.iter().filter(|g| g.admission == crate::sim::Admission::Pending && g.stream.is_some()).count().min(3);
+    f.u(sim.outstanding.len().min(4) as u64).u(waiting as u64).0
+}
+
 /// A property-specific monitor over simulator histories.
 pub trait HistoryProp {
     fn new_sim(&mut self, ctx: &mut Ctx) -> Option<Sim>;
@@ -402,6 +424,9 @@ pub fn run_history<P: HistoryProp>(ctx: &mut Ctx, prop: &mut P, acts: &[Act], fi
         let ap = apply(&mut sim, a);
         if ap == Applied::Skipped {
             continue;
+        }
+        if matches!(ap, Applied::Poll(_) | Applied::Trip(_)) {
+            ctx.rep.state(state_signature(&sim));
         }
         if let Some(v) = prop.after(ctx, &mut sim, a, &ap) {
             return RunOut { violation: Some(v), enabled: Vec::new() };
@@ -508,6 +533,9 @@ pub fn random_histories<P: HistoryProp>(
                 continue;
             }
             acts.push(a.clone());
+            if matches!(ap, Applied::Poll(_) | Applied::Trip(_)) {
+                ctx.rep.state(state_signature(&sim));
+            }
             if let Some(v) = prop.after(ctx, &mut sim, &a, &ap) {
                 violation = Some(v);
                 break;
